@@ -153,7 +153,10 @@ Inductive op :=
                                                    (strictly increasing positions), which stop being live *)
 | OpReallocFail (i : nat)                       (* Manager.Realloc: CalculateRealloc refused *)
 | OpRealloc (i : nat) (req : wreq) (new : wres) (* Manager.Realloc of live[i]; CalculateRealloc returned new *)
-| OpRollbackRealloc (i : nat) (origin : wres).  (* RollbackRealloc(delta) where delta = live[i] - origin *)
+| OpRollbackRealloc (i : nat) (origin : wres)   (* RollbackRealloc(delta) where delta = live[i] - origin *)
+| OpFailedCommit (inner : op).                  (* the manager call for [inner] while ANOTHER plugin of the manager
+                                                   fails in the commit step: cobalt rolls back the plugins that
+                                                   succeeded by writing their [before] usage back *)
 
 Fixpoint remove_idxs {A} (l : list A) (idxs : list nat) (pos : nat) : list A :=
   match l with
@@ -182,8 +185,17 @@ Definition commit (s : state) (ws : list wres) (incr : bool) (live' : list wres)
   | inl _ => mkStep s true None
   end.
 
-Definition step (s : state) (o : op) : step_result :=
+Fixpoint step (s : state) (o : op) : step_result :=
   match o with
+  | OpFailedCommit inner =>
+      let r := step s inner in
+      if sr_err r then mkStep s true (sr_delta r)        (* cpumem refused as well: not rolled back, untouched *)
+      else
+        (* cobalt.SetNodeResourceUsage rollback: plugin.SetNodeResourceUsage(before, nil, nil, delta=false, incr=false) *)
+        match set_node_resource_usage (st_info (sr_state r)) (Some (ni_usage (st_info s))) [] false false with
+        | inr i => mkStep (mkState i (st_live s)) true (sr_delta r)
+        | inl _ => mkStep (mkState (st_info (sr_state r)) (st_live s)) true (sr_delta r)
+        end
   | OpAllocFail => mkStep s true None
   | OpAlloc ws => commit s ws true (st_live s ++ ws)
   | OpRelease idxs => commit s (select_idxs (st_live s) idxs 0) false (remove_idxs (st_live s) idxs 0)
@@ -275,7 +287,7 @@ Definition agree_remap (c : case) : bool := run_agree true (c_base c) (mkState (
 Definition live_after (live : list wres) (o : op) (err : bool) : list wres :=
   if err then live else
   match o with
-  | OpAllocFail | OpReallocFail _ => live
+  | OpAllocFail | OpReallocFail _ | OpFailedCommit _ => live
   | OpAlloc ws => live ++ ws
   | OpRelease idxs => remove_idxs live idxs 0
   | OpRealloc i _ new => replace_nth live i new
@@ -325,7 +337,7 @@ Definition is_rollback_of (live_before_p : list wres) (p o : op) : bool :=
 Definition nanos_after (nanos : list Z) (o : op) (err : bool) : list Z :=
   if err then nanos else
   match o with
-  | OpAllocFail | OpReallocFail _ => nanos
+  | OpAllocFail | OpReallocFail _ | OpFailedCommit _ => nanos
   | OpAlloc ws => nanos ++ map (fun w => nano (wr_cpu_req w)) ws
   | OpRelease idxs => remove_idxs nanos idxs 0
   | OpRealloc i _ new => replace_nth nanos i (nano (wr_cpu_req new))
